@@ -71,6 +71,12 @@ type Codec struct {
 	StrictStability bool
 	Values          []Value
 	Seeds           []Seed
+	// Boundary values sit at the declared maximum (max-1, max) of a length-bounded field; they
+	// must round-trip like menu values but are not expanded into truncations / mutations.
+	Boundary []Value
+	// OverMax values exceed a declared maximum by one: the encoder or the decoder must reject
+	// them, within the allocation ceiling.
+	OverMax []Value
 	// Headers are the valid frame prefixes after which all short byte strings are tried.
 	Headers [][]byte
 	// LightHeaders are further valid prefixes (legacy versions) that always get the quick-tier
@@ -218,6 +224,9 @@ type replay struct {
 }
 
 func (k *Runner) violate(c *Codec, class, kindName string, in, seed []byte, n int, label, format string, args ...any) {
+	if kindName == "roundtrip" && len(in) > 4096 {
+		in, seed = nil, nil // replayed from the value label
+	}
 	k.R.Violation(ev.Violation{
 		Fingerprint: "C27:" + class + ":" + c.Name,
 		Message:     fmt.Sprintf("%s [%s] %s", c.Name, kindName, fmt.Sprintf(format, args...)),
@@ -305,7 +314,36 @@ func (k *Runner) Run(codecs []*Codec) {
 func (k *Runner) roundtrip(c *Codec) []seedRec {
 	var seeds []seedRec
 	seen := map[string]bool{}
-	for _, v := range c.Values {
+	for _, v := range c.OverMax {
+		enc, err, pan := safeEncode(c, v.V)
+		out := "encoder-rejects"
+		switch {
+		case pan != nil:
+			out = "encode-panic"
+			k.violate(c, "encode-panic", "roundtrip", nil, nil, 0, v.Label, "Encode(%s) panicked: %v", v.Label, pan)
+		case err == nil:
+			var got any
+			var derr error
+			var dp any
+			alloc := k.measure(func() { got, derr, dp = safeDecode(c, enc) })
+			out = "decoder-rejects"
+			switch {
+			case dp != nil:
+				out = "panic"
+				k.violate(c, "decode-panic", "roundtrip", nil, nil, 0, v.Label, "decoding the over-maximum value %s panicked: %v", v.Label, dp)
+			case derr == nil:
+				out = "over-maximum-accepted"
+				k.violate(c, "over-maximum-accepted", "roundtrip", nil, nil, 0, v.Label, "value %s exceeds a declared maximum but is accepted by the encoder and the decoder (decoded %s)", v.Label, short(got))
+			}
+			if alloc > Ceiling(len(enc)) {
+				k.violate(c, "alloc-over-ceiling", "roundtrip", nil, nil, 0, v.Label, "rejecting the %d-byte over-maximum encoding %s allocated %d bytes (> %d)", len(enc), v.Label, alloc, Ceiling(len(enc)))
+			}
+		}
+		k.rt.Case(c.Name+"/overmax/"+v.Label, true, out)
+	}
+	nMenu := len(c.Values)
+	for vi, v := range append(append([]Value(nil), c.Values...), c.Boundary...) {
+		boundary := vi >= nMenu
 		enc, err, pan := safeEncode(c, v.V)
 		if pan != nil {
 			k.violate(c, "encode-panic", "roundtrip", nil, nil, 0, v.Label, "Encode(%s) panicked: %v", v.Label, pan)
@@ -339,6 +377,10 @@ func (k *Runner) roundtrip(c *Codec) []seedRec {
 		if !k.sample[c.Name] {
 			k.sample[c.Name] = true
 			k.R.Sample(map[string]any{"codec": c.Name, "section": "roundtrip", "value": v.Label, "encoding_hex": hexs(enc), "outcome": out})
+		}
+		if boundary {
+			k.stats["boundary_length_values_roundtripped"]++
+			continue
 		}
 		if out == "equal" && !seen[string(enc)] {
 			seen[string(enc)] = true
@@ -670,6 +712,17 @@ func (k *Runner) replay(codecs []*Codec, rf *ev.ReplayFile) {
 				}
 			}
 			cc.Values, cc.Seeds = vals, sds
+			cc.Boundary, cc.OverMax = nil, nil
+			for _, v := range c.Boundary {
+				if v.Label == p.Label {
+					cc.Boundary = append(cc.Boundary, v)
+				}
+			}
+			for _, v := range c.OverMax {
+				if v.Label == p.Label {
+					cc.OverMax = append(cc.OverMax, v)
+				}
+			}
 			k.roundtrip(&cc)
 		} else {
 			in, _ := hex.DecodeString(p.Input)
